@@ -48,6 +48,13 @@ class StoredIndex:
                 a, b = seg.mdat_payload
                 table.setdefault(hashlib.sha1(buf[a:b]).digest(), []).append(k)
             self.payload[key] = table
+        # Representation ids (and so the names in URLs) are the lower-case form of the media file names
+        for (d, n) in list(self.files):
+            alias = (d, n.lower())
+            if alias not in self.files:
+                self.files[alias] = self.files[(d, n)]
+                self.payload[alias] = self.payload[(d, n)]
+                self.data[alias] = self.data[(d, n)]
 
     def stored_has_tfdt(self, key) -> bool:
         return any(seg.tfdt is not None for seg in self.files[key].segments)
